@@ -7,17 +7,21 @@ From Tally Require Import Base.ObsCore Model.Buckets Model.Timer.
 Import ListNotations.
 Open Scope Z_scope.
 
+Section WithSanitizer.
+(* everything below holds for ANY sanitizer (three arbitrary functions) *)
+Variable sz : sanz.
+
 (* ================================================================== *)
 (* Specification: what each handle denotes and what every timer must be
    given, from the API contract alone (no objects, no reporter). *)
 
 Definition callsite := (bytes * tags * bytes)%type.     (* scope prefix, scope tags, call name *)
 Definition call_err_key (c : callsite) : key :=
-  (fst (fst c), tmerge (snd (fst c)) [(RESULT_TYPE, R_ERROR)], snd c).
+  (fst (fst c), tmerge (snd (fst c)) (stags sz [(RESULT_TYPE, R_ERROR)]), sn sz (snd c)).
 Definition call_ok_key (c : callsite) : key :=
-  (fst (fst c), tmerge (snd (fst c)) [(RESULT_TYPE, R_SUCCESS)], snd c).
+  (fst (fst c), tmerge (snd (fst c)) (stags sz [(RESULT_TYPE, R_SUCCESS)]), sn sz (snd c)).
 Definition call_lat_key (c : callsite) : key :=
-  (fqn (fst (fst c)) (snd c), snd (fst c), LATENCY).
+  (jn (sepz sz) (fst (fst c) ++ sn sz (snd c)), snd (fst c), sn sz LATENCY).
 
 Record senv := SEnv {
   e_scopes : list (bytes * tags);        (* scope handle -> (prefix, tags) *)
@@ -29,24 +33,24 @@ Record senv := SEnv {
 }.
 
 Definition sinit (root : bytes * tags) : senv :=
-  SEnv [(fst root, tmerge [] (snd root))] [] 0 [] [] 0.
+  SEnv [(jn (sepz sz) (sn sz (fst root)), tmerge [] (stags sz (snd root)))] [] 0 [] [] 0.
 
 (* one call: the new environment and the values timers must receive during it *)
 Definition sstep (clk : nat -> Z) (e : senv) (o : op) : senv * list (key * Z) :=
   match o with
   | OSub i p =>
       match nth_error (e_scopes e) i with
-      | Some sc => (SEnv (e_scopes e ++ [(fqn (fst sc) p, snd sc)]) (e_timers e) (e_nh e) (e_sws e) (e_calls e) (e_clk e), [])
+      | Some sc => (SEnv (e_scopes e ++ [(jn (sepz sz) (fst sc ++ sn sz p), snd sc)]) (e_timers e) (e_nh e) (e_sws e) (e_calls e) (e_clk e), [])
       | None => (e, [])
       end
   | OTag i t =>
       match nth_error (e_scopes e) i with
-      | Some sc => (SEnv (e_scopes e ++ [(fst sc, tmerge (snd sc) t)]) (e_timers e) (e_nh e) (e_sws e) (e_calls e) (e_clk e), [])
+      | Some sc => (SEnv (e_scopes e ++ [(fst sc, tmerge (snd sc) (stags sz t))]) (e_timers e) (e_nh e) (e_sws e) (e_calls e) (e_clk e), [])
       | None => (e, [])
       end
   | OTimer i n =>
       match nth_error (e_scopes e) i with
-      | Some sc => (SEnv (e_scopes e) (e_timers e ++ [(fst sc, snd sc, n)]) (e_nh e) (e_sws e) (e_calls e) (e_clk e), [])
+      | Some sc => (SEnv (e_scopes e) (e_timers e ++ [(fst sc, snd sc, sn sz n)]) (e_nh e) (e_sws e) (e_calls e) (e_clk e), [])
       | None => (e, [])
       end
   | ORecord t d =>
@@ -613,10 +617,10 @@ Proof.
     intros c sc (H1 & H2 & H3). repeat split; now apply href_app.
 Qed.
 
-Lemma sim_init root : Sim (init root) (sinit root).
+Lemma sim_init root : Sim (init sz root) (sinit root).
 Proof. constructor; cbn; auto; constructor. Qed.
 
-Lemma deli_init fl root : DelI fl (init root) [].
+Lemma deli_init fl root : DelI fl (init sz root) [].
 Proof.
   split.
   - destruct fl; cbn; auto.
@@ -625,8 +629,8 @@ Qed.
 
 Lemma step_sim fl clk s e acc o :
   Sim s e -> DelI fl s acc ->
-  Sim (step fl clk s o) (fst (sstep clk e o)) /\
-  DelI fl (step fl clk s o) (acc ++ snd (sstep clk e o)).
+  Sim (step sz fl clk s o) (fst (sstep clk e o)) /\
+  DelI fl (step sz fl clk s o) (acc ++ snd (sstep clk e o)).
 Proof.
   intros HS HD. pose proof HS as [Hsc Hth Hnh Hsw Hca Hck].
   destruct o as [i p|i t|i n|t d| |t|i n spec|h|w|i n|c b]; cbn [step sstep].
@@ -640,7 +644,7 @@ Proof.
     apply (DelI_same _ s); auto.
   - (* Timer *)
     rewrite Hsc. destruct (nth_error (e_scopes e) i) as [sc|]; cbn [fst snd]; rewrite app_nil_r; [|auto].
-    destruct (get_timer_spec fl s (fst sc, snd sc, n) acc HD) as (HE & HD' & Hk).
+    destruct (get_timer_spec fl s (fst sc, snd sc, sn sz n) acc HD) as (HE & HD' & Hk).
     pose proof (Sim_ext _ _ _ HS HE) as [Hsc' Hth' Hnh' Hsw' Hca' Hck'].
     split; [constructor; cbn; auto|].
     + apply Forall2_snoc; assumption.
@@ -662,7 +666,7 @@ Proof.
     + apply (DelI_same _ s); auto.
   - (* Histogram *)
     rewrite Hsc. destruct (nth_error (e_scopes e) i) as [sc|]; cbn [fst snd]; rewrite app_nil_r; [|auto].
-    destruct (get_hist_spec fl s (fst sc, snd sc, n) spec acc HD) as (HE & HD').
+    destruct (get_hist_spec fl s (fst sc, snd sc, sn sz n) spec acc HD) as (HE & HD').
     pose proof (Sim_ext _ _ _ HS HE) as [Hsc' Hth' Hnh' Hsw' Hca' Hck'].
     split; [constructor; cbn; auto|].
     + rewrite app_length. cbn. lia.
@@ -694,9 +698,9 @@ Proof.
       split; [eapply Sim_ext; eauto | exact HD'].
   - (* instrument.NewCall *)
     rewrite Hsc. destruct (nth_error (e_scopes e) i) as [sc|]; cbn [fst snd]; rewrite app_nil_r; [|auto].
-    set (ke := (fst sc, tmerge (snd sc) [(RESULT_TYPE, R_ERROR)], n)).
-    set (ks := (fst sc, tmerge (snd sc) [(RESULT_TYPE, R_SUCCESS)], n)).
-    set (kl := (fqn (fst sc) n, snd sc, LATENCY)).
+    set (ke := (fst sc, tmerge (snd sc) (stags sz [(RESULT_TYPE, R_ERROR)]), sn sz n)).
+    set (ks := (fst sc, tmerge (snd sc) (stags sz [(RESULT_TYPE, R_SUCCESS)]), sn sz n)).
+    set (kl := (jn (sepz sz) (fst sc ++ sn sz n), snd sc, sn sz LATENCY)).
     destruct (get_counter_spec fl s ke acc HD) as (HE1 & HD1 & Hk1).
     set (r1 := get_counter fl s ke) in *.
     destruct (get_counter_spec fl (fst r1) ks acc HD1) as (HE2 & HD2 & Hk2).
@@ -736,8 +740,8 @@ Qed.
 
 Lemma fold_sim fl clk ops s e acc :
   Sim s e -> DelI fl s acc ->
-  Sim (fold_left (step fl clk) ops s) (fst (sfold clk e ops)) /\
-  DelI fl (fold_left (step fl clk) ops s) (acc ++ snd (sfold clk e ops)).
+  Sim (fold_left (step sz fl clk) ops s) (fst (sfold clk e ops)) /\
+  DelI fl (fold_left (step sz fl clk) ops s) (acc ++ snd (sfold clk e ops)).
 Proof.
   revert s e acc; induction ops as [|o r IH]; intros s e acc HS HD; cbn [fold_left sfold fst snd].
   - rewrite app_nil_r. auto.
@@ -746,23 +750,23 @@ Proof.
 Qed.
 
 Lemma run_sim fl clk root ops :
-  Sim (run fl clk root ops) (senv_of clk root ops) /\
-  DelI fl (run fl clk root ops) (records clk root ops).
+  Sim (run sz fl clk root ops) (senv_of clk root ops) /\
+  DelI fl (run sz fl clk root ops) (records clk root ops).
 Proof.
   unfold run, senv_of, records.
-  exact (fold_sim fl clk ops (init root) (sinit root) [] (sim_init root) (deli_init fl root)).
+  exact (fold_sim fl clk ops (init sz root) (sinit root) [] (sim_init root) (deli_init fl root)).
 Qed.
 
 (* ---- C10_record_once_sync ---- *)
 Lemma record_once_sync fl clk root ops :
-  delivered fl (run fl clk root ops) (records clk root ops).
+  delivered fl (run sz fl clk root ops) (records clk root ops).
 Proof. exact (proj1 (proj2 (run_sim fl clk root ops))). Qed.
 
 Lemma run_snoc fl clk root pre o :
-  run fl clk root (pre ++ [o]) = step fl clk (run fl clk root pre) o.
+  run sz fl clk root (pre ++ [o]) = step sz fl clk (run sz fl clk root pre) o.
 Proof. unfold run. now rewrite fold_left_app. Qed.
 Lemma run_app fl clk root pre post :
-  run fl clk root (pre ++ post) = fold_left (step fl clk) post (run fl clk root pre).
+  run sz fl clk root (pre ++ post) = fold_left (step sz fl clk) post (run sz fl clk root pre).
 Proof. unfold run. now rewrite fold_left_app. Qed.
 
 Lemma records_snoc clk root pre o :
@@ -783,9 +787,9 @@ Proof.
 Qed.
 
 Lemma record_immediately fl clk root pre t d oi o :
-  nth_error (thand (run fl clk root pre)) t = Some oi ->
-  nth_error (timers (run fl clk root pre)) oi = Some o ->
-  delivered fl (step fl clk (run fl clk root pre) (ORecord t d))
+  nth_error (thand (run sz fl clk root pre)) t = Some oi ->
+  nth_error (timers (run sz fl clk root pre)) oi = Some o ->
+  delivered fl (step sz fl clk (run sz fl clk root pre) (ORecord t d))
             (records clk root pre ++ [(tkey o, d)]).
 Proof.
   intros Ht Ho. destruct (run_sim fl clk root pre) as [HS _].
@@ -795,7 +799,7 @@ Proof.
 Qed.
 
 Lemma pass_adds_nothing fl clk root pre :
-  delivered fl (step fl clk (run fl clk root pre) OPass) (records clk root pre).
+  delivered fl (step sz fl clk (run sz fl clk root pre) OPass) (records clk root pre).
 Proof.
   rewrite <- run_snoc. pose proof (record_once_sync fl clk root (pre ++ [OPass])) as Hd.
   rewrite records_snoc in Hd. cbn [sstep snd] in Hd. now rewrite app_nil_r in Hd.
@@ -803,10 +807,10 @@ Qed.
 
 (* scope.Timer(n): the handle's timer is the one named n in that scope *)
 Lemma timer_identity fl clk root pre i n sc :
-  nth_error (scopes (run fl clk root pre)) i = Some sc ->
-  let s' := step fl clk (run fl clk root pre) (OTimer i n) in
-  exists oi o, nth_error (thand s') (length (thand (run fl clk root pre))) = Some oi /\
-               nth_error (timers s') oi = Some o /\ tkey o = (fst sc, snd sc, n).
+  nth_error (scopes (run sz fl clk root pre)) i = Some sc ->
+  let s' := step sz fl clk (run sz fl clk root pre) (OTimer i n) in
+  exists oi o, nth_error (thand s') (length (thand (run sz fl clk root pre))) = Some oi /\
+               nth_error (timers s') oi = Some o /\ tkey o = (fst sc, snd sc, sn sz n).
 Proof.
   intros Hsc s'. destruct (run_sim fl clk root pre) as [HS _].
   destruct (run_sim fl clk root (pre ++ [OTimer i n])) as [HS' _].
@@ -839,10 +843,10 @@ Proof.
 Qed.
 
 Lemma stopwatch_elapsed fl clk root pre t mid oi o :
-  let s0 := run fl clk root pre in
+  let s0 := run sz fl clk root pre in
   nth_error (thand s0) t = Some oi -> nth_error (timers s0) oi = Some o ->
-  let s1 := run fl clk root (pre ++ OStart t :: mid) in
-  delivered fl (step fl clk s1 (OStop (length (sws s0))))
+  let s1 := run sz fl clk root (pre ++ OStart t :: mid) in
+  delivered fl (step sz fl clk s1 (OStop (length (sws s0))))
             (records clk root (pre ++ OStart t :: mid) ++
              [(tkey o, sat64 (clk (nclk s1) - clk (nclk s0)))]).
 Proof.
@@ -882,8 +886,8 @@ Lemma pass_frame fl s : sws (pass fl s) = sws s /\ hhand (pass fl s) = hhand s.
 Proof. unfold pass. frame_tac. Qed.
 
 Lemma step_mono fl clk s o :
-  (exists x, sws (step fl clk s o) = sws s ++ x) /\
-  (exists y, hhand (step fl clk s o) = hhand s ++ y).
+  (exists x, sws (step sz fl clk s o) = sws s ++ x) /\
+  (exists y, hhand (step sz fl clk s o) = hhand s ++ y).
 Proof.
   assert (forall s' : state, sws s' = sws s -> hhand s' = hhand s ->
             (exists x, sws s' = sws s ++ x) /\ (exists y, hhand s' = hhand s ++ y)) as Hsame.
@@ -913,27 +917,27 @@ Proof.
     apply Hsame; cbn; [rewrite (proj1 (deliver_frame _ _ _ _)) | rewrite (proj2 (deliver_frame _ _ _ _))]; reflexivity.
 Qed.
 Lemma fold_mono fl clk ops s :
-  (exists x, sws (fold_left (step fl clk) ops s) = sws s ++ x) /\
-  (exists y, hhand (fold_left (step fl clk) ops s) = hhand s ++ y).
+  (exists x, sws (fold_left (step sz fl clk) ops s) = sws s ++ x) /\
+  (exists y, hhand (fold_left (step sz fl clk) ops s) = hhand s ++ y).
 Proof.
   revert s; induction ops as [|o r IH]; intro s; cbn [fold_left].
   - split; exists []; now rewrite app_nil_r.
   - destruct (step_mono fl clk s o) as [[x Hx] [y Hy]].
-    destruct (IH (step fl clk s o)) as [[x' Hx'] [y' Hy']].
+    destruct (IH (step sz fl clk s o)) as [[x' Hx'] [y' Hy']].
     split; [exists (x ++ x'); now rewrite Hx', Hx, app_assoc | exists (y ++ y'); now rewrite Hy', Hy, app_assoc].
 Qed.
 
 Lemma hist_stopwatch_elapsed fl clk root pre h mid oi :
-  let s0 := run fl clk root pre in
+  let s0 := run sz fl clk root pre in
   nth_error (hhand s0) h = Some oi ->
-  let s1 := run fl clk root (pre ++ OHStart h :: mid) in
-  step fl clk s1 (OStop (length (sws s0))) =
+  let s1 := run sz fl clk root (pre ++ OHStart h :: mid) in
+  step sz fl clk s1 (OStop (length (sws s0))) =
   hrecord (set_nclk s1 (S (nclk s1))) oi (sat64 (clk (nclk s1) - clk (nclk s0))).
 Proof.
   intros s0 Hh s1.
   assert (nth_error (sws s1) (length (sws s0)) = Some (RHist oi, clk (nclk s0))) as Hw.
   { unfold s1. rewrite run_app. cbn [fold_left]. fold s0.
-    destruct (fold_mono fl clk mid (step fl clk s0 (OHStart h))) as [[x Hx] _]. rewrite Hx.
+    destruct (fold_mono fl clk mid (step sz fl clk s0 (OHStart h))) as [[x Hx] _]. rewrite Hx.
     cbn [step]. rewrite Hh. cbn [sws set_nclk set_sws].
     rewrite <- app_assoc, nth_error_app2, Nat.sub_diag by lia. reflexivity. }
   cbn [step]. rewrite Hw. reflexivity.
@@ -984,21 +988,25 @@ Proof.
   destruct (tlookup k (List.rev t)); [reflexivity|]. destruct (zs_eqb k k1); reflexivity.
 Qed.
 
-Lemma call_keys_differ cc : call_err_key cc <> call_ok_key cc.
+(* the two counters of a call are distinct objects as soon as the value
+   sanitizer keeps "error" and "success" apart *)
+Lemma call_keys_differ cc :
+  sv sz R_ERROR <> sv sz R_SUCCESS -> call_err_key cc <> call_ok_key cc.
 Proof.
-  destruct cc as [[p tg] n]. unfold call_err_key, call_ok_key; cbn [fst snd]. intros Hh.
-  assert (tlookup RESULT_TYPE (tmerge tg [(RESULT_TYPE, R_ERROR)]) =
-          tlookup RESULT_TYPE (tmerge tg [(RESULT_TYPE, R_SUCCESS)])) as Hl by congruence.
-  rewrite !tlookup_tmerge in Hl. cbn in Hl. discriminate.
+  intros Hv. destruct cc as [[p tg] n]. unfold call_err_key, call_ok_key; cbn [fst snd]. intros Hh.
+  assert (tlookup (sk sz RESULT_TYPE) (tmerge tg (stags sz [(RESULT_TYPE, R_ERROR)])) =
+          tlookup (sk sz RESULT_TYPE) (tmerge tg (stags sz [(RESULT_TYPE, R_SUCCESS)]))) as Hl by congruence.
+  rewrite !tlookup_tmerge in Hl. cbn in Hl.
+  rewrite (proj2 (zs_eqb_spec (sk sz RESULT_TYPE) (sk sz RESULT_TYPE)) eq_refl) in Hl. congruence.
 Qed.
 
 Lemma deliver_counters fl s oi d : counters (deliver fl s oi d) = counters s.
 Proof. unfold deliver. destruct (nth_error (timers s) oi); [destruct fl|]; reflexivity. Qed.
 
 Lemma exec_spec fl clk root pre c b ce cs ti :
-  let s := run fl clk root pre in
+  let s := run sz fl clk root pre in
   nth_error (calls s) c = Some (ce, cs, ti) ->
-  let s' := step fl clk s (OExec c b) in
+  let s' := step sz fl clk s (OExec c b) in
   exists cc, nth_error (e_calls (senv_of clk root pre)) c = Some cc /\
     fruns s' = fruns s ++ [(c, b)] /\
     rets s' = rets s ++ [b] /\
@@ -1008,7 +1016,7 @@ Lemma exec_spec fl clk root pre c b ce cs ti :
     let kx := if b then call_err_key cc else call_ok_key cc in
     pend_of s' kx = wrap64 (pend_of s kx + 1) /\
     (forall k, k <> kx -> pend_of s' k = pend_of s k) /\
-    call_err_key cc <> call_ok_key cc.
+    (sv sz R_ERROR <> sv sz R_SUCCESS -> call_err_key cc <> call_ok_key cc).
 Proof.
   intros s Hc s'. destruct (run_sim fl clk root pre) as [HS HD]. fold s in HS, HD.
   pose proof (Forall2_nth _ _ _ c (sim_calls _ _ HS)) as Hn. rewrite Hc in Hn.
@@ -1075,9 +1083,11 @@ Proof. intros Hf. destruct fl; [reflexivity | reflexivity | contradiction | refl
 (* ---- the cached reporter: one AllocateTimer per timer object ---- *)
 Lemma alloc_once fl clk root ops :
   has_cached fl = true ->
-  let s := run fl clk root ops in
+  let s := run sz fl clk root ops in
   allocs (log s) = map (fun o => (tcid o, kstrs (tkey o))) (timers s) /\ NoDup (tkeys s).
 Proof.
   intros Hf s. destruct (run_sim fl clk root ops) as [_ [_ Hc]].
   destruct (Hc Hf) as (_ & _ & C3 & C4). split; assumption.
 Qed.
+
+End WithSanitizer.
